@@ -314,6 +314,39 @@ func (h *llGhost) post(op string, to vsup.State) {
 	}
 }
 
+// aftermath: whatever state the path ended in, everything the list holds comes out through Read, in order, a few
+// bytes at a time (destinations that end inside segments and exactly on their boundaries).
+func (h *llGhost) aftermath() {
+	h.step = len(h.path) - 1
+	b, q := h.b, h.q
+	defer func() {
+		if r := recover(); r != nil {
+			h.viol("Aftermath", "panic", fmt.Sprint(r))
+		}
+	}()
+	sizes := []int{h.scale, 3 * h.scale, 2 * h.scale}
+	for i := 0; q.Len() > 0; i++ {
+		p := make([]byte, sizes[i%len(sizes)])
+		n, err := b.Read(p)
+		if n == 0 {
+			h.viol("Aftermath", "stuck", fmt.Sprintf("Read(len %d) = 0,%v with %d bytes still held", len(p), err, q.Len()))
+			return
+		}
+		if j := q.IsPrefix(p[:n]); j >= 0 {
+			h.viol("Aftermath", "content", fmt.Sprintf("Read(len %d) = %d: byte %d is not the next byte of the queue", len(p), n, j))
+			return
+		}
+		q.Drop(n)
+		if b.Buffered() != q.Len() {
+			h.viol("Aftermath", "buffered", fmt.Sprintf("Buffered()=%d, queue holds %d bytes", b.Buffered(), q.Len()))
+			return
+		}
+	}
+	if !b.IsEmpty() || b.Len() != 0 {
+		h.viol("Aftermath", "drain", fmt.Sprintf("drained through Read, yet IsEmpty() %v, Len() %d", b.IsEmpty(), b.Len()))
+	}
+}
+
 func TestVerifLListCover(t *testing.T) {
 	g, err := vsup.LoadGraph(os.Getenv("VERIF_GRAPH"))
 	if err != nil {
@@ -333,6 +366,9 @@ func TestVerifLListCover(t *testing.T) {
 			if h.dead {
 				break
 			}
+		}
+		if !h.dead {
+			h.aftermath()
 		}
 		last := g.Edges[path[len(path)-1]]
 		if last.Action != "Norm" {
